@@ -20,7 +20,7 @@ ASSUMPTIONS = [
 
 SCORERS = [None, {"cls": "CUSUM"}, {"cls": "L2Cost"}, {"cls": "ChangeScore", "cost": {"cls": "L2Cost"}},
            {"cls": "WeightedCUSUM", "weights": [0.0, 2.0, -1.0]}, {"cls": "ChangeScore", "cost": {"cls": "TrendPenalisedL2Cost", "weight": 0.5}},
-           {"cls": "GaussianVarCost"}, "function", "table"]
+           {"cls": "GaussianVarCost"}, "function", "table", {"cls": "SecondMomentChangeScore"}]
 
 
 @st.composite
@@ -37,7 +37,8 @@ def cases(draw, tier):
         X = [[0.0] * p for _ in range(n)]
     else:
         ms = 1 if sc == "function" else K.scorer_min_size(sc, p)
-        bw = draw(st.integers(ms, ms + 7))
+        # integer function scores give long exceedance runs: bandwidths up to 16, i.e. min_detection_interval up to 7
+        bw = draw(st.integers(ms, ms + (15 if sc == "function" else 7)))
         nmax = 50 if tier == "quick" else 80
         n = D.weighted(draw, [(7, st.integers(2 * bw, max(2 * bw, nmax))), (2, st.integers(2 * bw, 2 * bw + 3)), (1, st.just(2 * bw))])
         if sc == "function":
@@ -228,6 +229,51 @@ def check_reversal(case):
     return {"nontrivial": bool(c1), "classes": classes}
 
 
+# ------------------------------------------------------------------ prescribed score curves
+
+
+@st.composite
+def profile_cases(draw, tier):
+    """The score curve is prescribed (user-defined ProfileChangeScore): exceedance runs of chosen lengths whose peak sits
+    at the first, last or an inner position, separated by gaps of 1-3 sub-threshold positions, for bandwidths up to 16
+    (min_detection_interval up to 7). The threshold is placed at 1.5 between the integer levels."""
+    bw = draw(st.integers(4, 16))
+    mdi = draw(st.integers(1, int(max(1, bw / 2 - 1))))
+    profile = []
+    for _ in range(draw(st.integers(2, 7))):
+        gap = draw(st.integers(1, 3))
+        profile += [float(draw(st.integers(0, 1))) for _ in range(gap)]
+        length = draw(st.sampled_from([1, 2, 3, mdi, mdi, max(1, mdi - 1), mdi + 1, 8]))
+        body = draw(st.sampled_from([2.0, 3.0]))
+        where = draw(st.sampled_from(["first", "last", "inner", "flat", "two_equal"]))
+        run = [body] * length
+        if where == "first":
+            run[0] = 5.0
+        elif where == "last":
+            run[-1] = 5.0
+        elif where == "inner":
+            run[draw(st.integers(0, length - 1))] = 5.0
+        elif where == "two_equal":
+            run[0] = run[-1] = 5.0
+        profile += run
+    profile += [0.0] * draw(st.integers(0, 3))
+    n = 2 * bw + len(profile) - 1
+    full = [0.0] * bw + profile + [0.0] * (n + 1 - bw - len(profile))
+    return {"params": {"change_score": {"cls": "ProfileChangeScore", "profile": full}, "bandwidth": bw, "threshold_scale": None,
+                       "level": draw(st.sampled_from([0.01, 0.1])), "min_detection_interval": mdi},
+            "n": n, "target_threshold": 1.5}
+
+
+def check_profile(case):
+    params = dict(case["params"])
+    n = case["n"]
+    base = float(K.registry()["MovingWindow"].get_default_threshold(n, 1, params["bandwidth"], params["level"]))
+    params["threshold_scale"] = case["target_threshold"] / base
+    info = check({"params": params, "X": np.zeros((n, 1)), "as_int64": False, "n_train": None, "history": None})
+    info["classes"] = [c for c in info["classes"] if not c.startswith("scorer=")] + [f"mdi={min(params['min_detection_interval'], 4)}"]
+    return info
+
+
 # ------------------------------------------------------------------ very long series
 
 
@@ -269,6 +315,11 @@ FACETS = [
           rule=("CUSUM / L2 scorers on float structured data, X and X reversed; scores compared within the prefix-sum error model; "
                 "changepoints compared only under the margin rule; non-trivial = margin satisfied and >= 1 changepoint"),
           n_quick=480, n_thorough=6000, shards_quick=8, shards_thorough=16),
+    Facet(name="score_profiles", check=check_profile, strategy=profile_cases,
+          rule=("prescribed score curves (user-defined ProfileChangeScore): 2-7 exceedance runs of lengths around min_detection_interval whose "
+                "peak is the first, last or an inner position (or two equal maxima), separated by 1-3 sub-threshold positions; bandwidth 4..16, "
+                "min_detection_interval 1..7, threshold placed between the integer levels; peak-of-run model; non-trivial = >= 1 changepoint"),
+          n_quick=400, n_thorough=6000, shards_quick=8, shards_thorough=16),
     Facet(name="long_series", kind="enumerate", enumerate=long_cells, check=check_long, exhaustive=True, time_limit=240,
           rule=("series with n p between 2^16 and 2^17 (n 16431..131115, p 1..5): seeded unit noise with level shifts at and next to "
                 "multiples of 2^16 / p; every score compared with the definition, changepoints with the peak model; 5 cells (thorough: 20), "
